@@ -125,7 +125,19 @@ func c10DSC(r *rt.Run, failAt bool) {
 	t := r.T
 	src := genPkgName(t, "dsc.src")
 	bins := genSubset(t, []string{src, src + "-dev", src + "-doc", "lib" + src + "1", src + "-dbg"}, 1, 4, "dsc.bins")
+	long := t.Bool(1, 10, "dsc.longbin")
+	if long {
+		// a single physical line longer than any default bufio buffer
+		bins = nil
+		for i := 0; i < 420+t.Draw(200, "dsc.longn"); i++ {
+			bins = append(bins, fmt.Sprintf("%s-bin%03d", src, i))
+		}
+		r.Probe("line-longer-than-4096-bytes")
+	}
 	m := genDSC(t, "dsc", src, bins, depOpts{Substvars: false, Stages: true, MaxRels: 4})
+	if long {
+		m.BinStyle = oneLine
+	}
 	doc := m.render()
 	via := "ParseDsc"
 	var got *control.DSC
@@ -558,5 +570,5 @@ func init() {
 		},
 		Assumptions: []string{"the .deb control file kind of this property is exercised by C14's check", "two-part architecture names are compared on OS and CPU only"},
 	})
-	propProbes["C10"] = []string{"caller-bufio-smaller-than-4096", "via-file-entry-point"}
+	propProbes["C10"] = []string{"line-longer-than-4096-bytes", "caller-bufio-smaller-than-4096", "via-file-entry-point"}
 }
